@@ -603,6 +603,20 @@ func (b *Bridge) after(in *hub.Instance, g *bridgeGhost, op engine.Op, pre *view
 		}
 	}
 
+	// ---- C12: an EndBlocker that applies no event only sweeps expired transfers. A refund to a hub account leaves
+	// the module's accounts as they were; a refund towards the originating chain passes through the transit address and is
+	// burnt into the onward transfer in the same step; a refund that cannot be issued takes no effect at all. Either way
+	// nothing stays behind on the module account or the transit address
+	// (C12's alphabet has no cold-storage proposals: an expired cold-storage transfer is "refunded" to its sender, the
+	// transit address itself - vouchers that circulate nowhere, see C01's assumptions)
+	if endBlock && b.Cfg.Prop == "C12" && len(g.Pending) == 0 {
+		for _, acc := range []string{"temp", "module"} {
+			if !preBal[acc].IsEqual(postBal[acc]) {
+				b.v(st, b.Cfg.Prop, "expiry_sweep_left_vouchers_on_a_module_account", "refundExpiredTxs", "no event was applied in this EndBlocker (%d transfers expired), yet the %s account went from %s to %s", len(expiredNow), acc, preBal[acc], postBal[acc])
+			}
+		}
+	}
+
 	// ---- C01: a cold storage proposal schedules a move between two custody locations; it mints exactly what it schedules
 	// (and burns it into the transfer), so nothing stays behind on the module's accounts
 	if op.Kind == "ColdStorage" && b.Cfg.Prop == "C01" {
